@@ -548,14 +548,7 @@ where
                         }
 
                         if is_transform_on {
-                            if !props.is_empty() && self.options.merge_props {
-                                // keep source order: earlier attributes are merged first
-                                merge_args.push(Expr::Object(ObjectLit {
-                                    span: DUMMY_SP,
-                                    props: util::dedupe_props(mem::take(&mut props)),
-                                }));
-                            }
-                            merge_args.push(Expr::Call(CallExpr {
+                            let transform_on_call = Expr::Call(CallExpr {
                                 span: DUMMY_SP,
                                 callee: Callee::Expr(Box::new(Expr::Ident(
                                     self.transform_on_helper
@@ -567,7 +560,23 @@ where
                                     expr: attr_value,
                                 }],
                                 ..Default::default()
-                            }));
+                            });
+                            if self.options.merge_props {
+                                if !props.is_empty() {
+                                    // keep source order: earlier attributes are merged first
+                                    merge_args.push(Expr::Object(ObjectLit {
+                                        span: DUMMY_SP,
+                                        props: util::dedupe_props(mem::take(&mut props)),
+                                    }));
+                                }
+                                merge_args.push(transform_on_call);
+                            } else {
+                                // without `mergeProps` the listeners are spread in place (last one wins)
+                                props.push(PropOrSpread::Spread(SpreadElement {
+                                    dot3_token: DUMMY_SP,
+                                    expr: Box::new(transform_on_call),
+                                }));
+                            }
                         } else {
                             props.push(PropOrSpread::Prop(Box::new(Prop::KeyValue(
                                 KeyValueProp {
